@@ -47,6 +47,7 @@ class Monitor:
         self.ood = Counter()  # calls outside the oracle's domain
         self.checks = Counter()  # driver-level relational checks
         self.violations = []
+        self._per_kind = {}
         self.n_violations = 0
         self.known = Counter()
         self.known_samples = {}
@@ -89,7 +90,10 @@ class Monitor:
             self.known_samples.setdefault(known, rec)
             return
         self.n_violations += 1
-        if len(self.violations) < MAX_STORED:
+        # keep a few witnesses PER KIND so that one frequent defect cannot crowd out the others
+        k = self._per_kind.get(kind, 0)
+        if k < 3 and len(self._per_kind) <= MAX_STORED:
+            self._per_kind[kind] = k + 1
             self.violations.append(rec)
 
     def check(self, name, ok, detail=None, known=None):
